@@ -16,7 +16,8 @@
 (***************************************************************************)
 EXTENDS EFVM, Json
 
-CONSTANT Tier
+CONSTANT Tier,
+         Seed      \* >= 1: shifts which part of a sampled family is taken (1 = the default sample)
 VARIABLE row
 vars == <<row>>
 
@@ -70,33 +71,33 @@ Next ==
   /\ ~row.done
   /\ \/ /\ row.k = "f0"
         /\ \E k2 \in 1..NK :
-             /\ (Tier = "thorough" \/ (row.k1 + 3 * k2) % 3 = 0)
+             /\ (Tier = "thorough" \/ (row.k1 + 3 * k2 + Seed - 1) % 3 = 0)
              /\ row' = MkRow("flow", Flow!Prog(row.sh, row.k1, k2, 1), Flow!Objs(Flow!Fields(<<row.k1, k2>>)))
      \/ /\ row.k = "f0" /\ row.sh = "nest2"
         /\ \E k2 \in 1..NK, k3 \in 1..NK :
-             /\ (row.k1 + 3 * k2 + 5 * k3) % (IF Tier = "thorough" THEN 7 ELSE 101) = 0
+             /\ (row.k1 + 3 * k2 + 5 * k3 + Seed - 1) % (IF Tier = "thorough" THEN 7 ELSE 101) = 0
              /\ row' = MkRow("flow3", Flow!Prog("nest3", row.k1, k2, k3), Flow!Objs(Flow!Fields(<<row.k1, k2, k3>>)))
      \/ /\ row.k = "s0"
         /\ \E a \in 1..3, b \in 1..3, place \in 1..6, before \in BOOLEAN :
              /\ a # b
-             /\ (Tier = "thorough" \/ (row.t + a + 2 * b + place) % 3 = 0)
+             /\ (Tier = "thorough" \/ (row.t + a + 2 * b + place + Seed - 1) % 3 = 0)
              /\ row' = MkRow("scope", Scope!Prog(row.t, Scope!Names[a], Scope!Names[b], place, before), Twice)
      \/ /\ row.k = "a0"
         /\ \E s \in 1..Len(Alias!Sources), m \in 1..Len(Alias!Muts) :
-             /\ (Tier = "thorough" \/ (row.sh + s + m) % 3 = 0)
+             /\ (Tier = "thorough" \/ (row.sh + s + m + Seed - 1) % 3 = 0)
              /\ row' = MkRow("alias", Alias!Shape(row.sh, Alias!Sources[s], Alias!Muts[m]),
                              IF row.sh = 7 THEN <<<<<<"F1", Alias!Sources[s]>>>>, <<<<"F1", Alias!Sources[s]>>>>>> ELSE Twice)
      \/ \* the fault scripts of MC_History: run-time errors inside functions and loops, early returns (the
         \* mode "a run that never ends" is left out: both sides only run out of fuel)
         /\ row.k = "h0"
         /\ \E m2 \in 0..9, m3 \in 0..9 :
-             /\ (Tier = "thorough" \/ (row.m1 + 3 * m2 + 5 * m3) % 7 = 0)
+             /\ (Tier = "thorough" \/ (row.m1 + 3 * m2 + 5 * m3 + Seed - 1) % 7 = 0)
              /\ row' = MkRowG("history", IF row.sc = 1 THEN Hist!Script1 ELSE Hist!Script2,
                               <<<<<<"M", I(row.m1)>>>>, <<<<"M", I(m2)>>>>, <<<<"M", I(m3)>>>>>>, Hist!G0)
      \/ /\ row.k = "o0"
         /\ \E m1 \in 0..Opt!NC, k2 \in 1..NK, m2 \in 0..Opt!NC, sh \in {"nest2", "seq2", "first"} :
              /\ (m1 > 0 => Opt!UsesC(row.k1)) /\ (m2 > 0 => Opt!UsesC(k2)) /\ (m1 > 0 \/ m2 > 0)
-             /\ (row.k1 + 3 * m1 + 5 * k2 + 7 * m2) % (IF Tier = "thorough" THEN 5 ELSE 47) = 0
+             /\ (row.k1 + 3 * m1 + 5 * k2 + 7 * m2 + Seed - 1) % (IF Tier = "thorough" THEN 5 ELSE 47) = 0
              /\ row' = MkRow("opt", Opt!Prog(sh, row.k1, m1, k2, m2), Opt!Objs(Opt!FieldsOf(row.k1, m1, k2, m2)))
 
 Spec == Init /\ [][Next]_vars
